@@ -424,16 +424,22 @@ func getReference(v cue.Value) (bool, cue.Value, cue.Value) {
 		return false, v, v
 	}
 
-	_, path = exprs[0].ReferencePath()
+	refExpr := exprs[0]
+	_, path = refExpr.ReferencePath()
+	if path.String() == "" && op == cue.OrOp {
+		// the default may be written first: [*{ ... } | AStruct]
+		refExpr = exprs[1]
+		_, path = refExpr.ReferencePath()
+	}
 	if v.Kind() == cue.BottomKind && v.IncompleteKind() == cue.StructKind && path.String() != "" {
 		// When a struct with defaults is completely filled, it usually has a NoOp op.
 		if op == cue.NoOp {
-			return true, exprs[0], v
+			return true, refExpr, v
 		}
 
 		// Accepts [AStruct | *{ ... }] and skips [AStruct | BStruct]
 		if _, ok := v.Default(); ok {
-			return true, exprs[0], v
+			return true, refExpr, v
 		}
 	}
 
